@@ -1139,6 +1139,20 @@ class Ctx:
                 self.origin_stacks.setdefault(b, self.origin_stack)
         if k[0] == 'cmp':
             self._refine(k[1], k[2])
+            if k[1] in ('!=', '<='):
+                # d <= 0 together with d != 0 is d < 0 (and the same for -d): `i <= len` at a loop head, `i != len` in its body
+                d = k[2]
+                for dd in (d, -d):
+                    other = B(('cmp', '!=' if k[1] == '<=' else '<=', dd if k[1] == '<=' else dd))
+                    partner = [f_ for f_ in self.facts if f_.k[0] == 'cmp' and f_.k[1] == ('!=' if k[1] == '<=' else '<=') and (f_.k[2] == dd or (k[1] == '<=' and f_.k[2] == -dd) or (k[1] == '!=' and f_.k[2] == dd))]
+                    for f_ in partner:
+                        le = f_.k[2] if f_.k[1] == '<=' else (d if k[1] == '<=' else None)
+                        if le is None:
+                            continue
+                        nb = B(('cmp', '<', le))
+                        if nb not in self.facts:
+                            self.facts.append(nb)
+                            self._refine('<', le)
             if k[1] in ('<', '<=', '=='):
                 # c*|p| + rest <= 0 with c > 0 gives c*p + rest <= 0 and -c*p + rest <= 0 (p <= |p| and -p <= |p|)
                 d = k[2]
